@@ -253,3 +253,53 @@ func (x *run) deployOracle(ep *epochs) {
 		}
 	}
 }
+
+// kfPartialRedeploy (family P): one worker of two dies while the pipeline is idle; the survivor is redeployed
+// in place together with a replacement. Deterministic reproducer of the known finding old-instance-gc at job
+// level: the survivor's previous dkv.DB object becomes garbage and its table cleanups delete files the new
+// database (restored from the same operator's checkpoint, same directory) needs.
+func kfPartialRedeploy(c *lib.Ctx) {
+	o := runOpts{workers: 2, keyGroups: 16, splits: 2, perSplit: 60, maxSize: 2, maxDelay: time.Millisecond, tsMode: "increasing"}
+	x := newRun(c, o)
+	defer x.close()
+	c.OnPanic = func() any { return x.wit() }
+	ep := x.installEpochSwitch()
+	x.src.SetLimit(30)
+	x.start(0)
+	x.waitCaughtUp()
+	if x.checkpoint(cluster.Watchdog) == nil {
+		c.Inconclusive("no checkpoint")
+	}
+	time.Sleep(20 * time.Millisecond) // idle pipeline: batches flushed, nothing in flight
+	victim := x.cl.Live()[1]
+	x.logf("kill %s while the pipeline is idle; %s survives", victim.Name, x.cl.Live()[0].Name)
+	x.cl.Kill(victim)
+	w := x.cl.AddWorker()
+	x.logf("start %s", w.Name)
+	x.nudge()
+	x.waitAssigned(2)
+	for i := 0; i < 5; i++ {
+		lib.GCSettle() // the survivor's previous database object is garbage now
+	}
+	x.src.SetLimit(o.perSplit)
+	survivor := x.cl.Live()[0]
+	deadline := time.Now().Add(cluster.Watchdog)
+	for !x.src.CaughtUp(func(r *cluster.VReader) bool { return x.cl.ReaderLive(r) }) {
+		if gone, err := survivor.Exited(); gone {
+			x.checkHandlers()
+			x.c.Fail("survivor-stopped-after-in-place-redeploy", x.wit("epochs", ep.history), "family P: the surviving worker %s stopped by itself after it was redeployed in place (%v); edge errors: %v", survivor.Name, err, x.cl.EdgeErrors())
+		}
+		if time.Now().After(deadline) {
+			x.c.Inconclusive("readers did not reach the limit within the watchdog")
+		}
+		time.Sleep(300 * time.Microsecond)
+	}
+	ok := x.waitApplied(o.perSplit, 5*time.Second)
+	x.checkHandlers()
+	if !ok {
+		x.c.Fail("record-lost", x.wit("epochs", ep.history), "family P: after the in-place redeploy of the survivor not every keyed event took effect")
+	}
+	x.checkFinalState(o.perSplit)
+	c.SetSig(true, "kf-partial-redeploy")
+	c.Sample(x.log)
+}
